@@ -551,8 +551,14 @@ func grpcExtractErrorFromTrailer(trailers http.Header) *connect.Error {
 			protocolError("invalid protobuf for error details: %w", err),
 		)
 	}
+	detailsCode := connect.Code(stat.GetCode()) //nolint:gosec // No information loss.
+	if detailsCode == 0 {
+		// The status header says the RPC failed; details that claim
+		// success cannot turn that into an error with code OK.
+		detailsCode = connect.Code(code)
+	}
 	trailerErr := connect.NewWireError(
-		connect.Code(stat.GetCode()), //nolint:gosec // No information loss.
+		detailsCode,
 		errors.New(stat.GetMessage()),
 	)
 	for _, msg := range stat.GetDetails() {
